@@ -1289,7 +1289,7 @@ impl Compiler {
         let mut chunk = func_compiler.builder.finish();
         chunk.function_info = Some(FunctionInfo {
             name,
-            param_count: params.len(),
+            param_count: Self::expected_argument_count(params),
             is_generator,
             is_async,
             is_arrow,
@@ -1322,6 +1322,15 @@ impl Compiler {
 
         self.builder.free_register(class_reg);
         Ok(())
+    }
+
+    /// The `length` of a function: the parameters before the first one that has a default
+    /// value or is a rest parameter
+    pub(crate) fn expected_argument_count(params: &[crate::ast::FunctionParam]) -> usize {
+        params
+            .iter()
+            .take_while(|param| !matches!(param.pattern, Pattern::Assignment(_) | Pattern::Rest(_)))
+            .count()
     }
 
     /// Compile class body - shared by class declarations and expressions
@@ -2305,7 +2314,7 @@ impl Compiler {
         let mut chunk = func_compiler.builder.finish();
         chunk.function_info = Some(FunctionInfo {
             name,
-            param_count: ctor.params.len(),
+            param_count: Self::expected_argument_count(&ctor.params),
             param_names,
             rest_param,
             is_generator: false,
